@@ -13,6 +13,7 @@
 EXTENDS Spinner, Json, TLC
 
 CONSTANTS Bodies,      \* set of with-bodies
+          Modes,       \* kinds of output: "ansi", "plain", "quiet"
           TickMs,      \* set of clock advances
           MaxTicks, MaxPre
 
@@ -40,9 +41,12 @@ BodiesAll == SeqsTo(3) \cup {Append(s, Raise) : s \in SeqsTo(2)} \cup {Append(s,
 Ticks1 == {100}
 Ticks2 == {50, 100}
 
-Cfg(b) == [w |-> 30, interval |-> 100, start |-> A, end |-> E, body |-> b]
+AllModes == {"ansi", "plain", "quiet"}
+OnlyAnsi == {"ansi"}
+NotAnsi == {"plain", "quiet"}
+Cfg(b, md) == [mode |-> md, w |-> 30, interval |-> 100, start |-> A, end |-> E, body |-> b]
 
-MInit == /\ \E b \in Bodies : InitWith(Cfg(b))
+MInit == /\ \E b \in Bodies, md \in Modes : InitWith(Cfg(b, md))
          /\ nticks = 0 /\ hist = <<>> /\ npre = 0 /\ prev = ""
 
 EnT == pcS = "sleep" /\ clock < sdead /\ (nticks < MaxTicks \/ stop)
